@@ -57,3 +57,30 @@ Lemma concat_variant_refuted :
   dialled_endpoint_concat tcp_prefix "cach%65" = Some "cache" /\ dialled_endpoint tcp_prefix "cach%65" = Some "cach%65" /\
   escape_path (tcp_prefix ++ "a b#c?d%") = "/_piko/v1/tcp/a%20b%23c%3Fd%25".
 Proof. vm_compute. repeat split. Qed.
+
+(* the rendered path contains neither '?' nor '#': the request parser's split of the target into path, query and fragment
+   cannot cut it - which is why the server decodes exactly what the client escaped *)
+Lemma unescaped_not_delim (c : ascii) :
+  should_escape_path c = false -> (Ascii.eqb c "?" || Ascii.eqb c "#")%bool = false.
+Proof. destruct c as [[] [] [] [] [] [] [] []]; vm_compute; intros H; try reflexivity; discriminate. Qed.
+
+Lemma hex_digit_not_delim (c : ascii) :
+  (Ascii.eqb (hex_digit (code c / 16)) "?" || Ascii.eqb (hex_digit (code c / 16)) "#")%bool = false /\
+  (Ascii.eqb (hex_digit (code c mod 16)) "?" || Ascii.eqb (hex_digit (code c mod 16)) "#")%bool = false.
+Proof. destruct c as [[] [] [] [] [] [] [] []]; vm_compute; split; reflexivity. Qed.
+
+Lemma escaped_not_split s : cut_at_query (escape_path s) = escape_path s.
+Proof.
+  induction s as [|c r IH]; [reflexivity|]. cbn [escape_path]. destruct (should_escape_path c) eqn:E.
+  - cbn [cut_at_query]. change (Ascii.eqb "%" "?" || Ascii.eqb "%" "#")%bool with false. cbn iota.
+    destruct (hex_digit_not_delim c) as [H1 H2]. rewrite H1, H2, IH. reflexivity.
+  - cbn [cut_at_query]. rewrite (unescaped_not_delim c E), IH. reflexivity.
+Qed.
+
+(* so the endpoint the server routes to, INCLUDING the parser's split at '?' / '#', is the one the client named *)
+Lemma dialled_through_parser prefix id :
+  match unescape_path (cut_at_query (escape_path (prefix ++ id))) with
+  | Some path => route_param prefix path
+  | None => None
+  end = dialled_endpoint prefix id.
+Proof. rewrite escaped_not_split. reflexivity. Qed.
